@@ -1,6 +1,6 @@
 """Helpers shared by the E1 property modules."""
 
-from ..common import Result, Violation, jsonable
+from ..common import Result, Violation, jsonable, debug_logging
 from ..engine_opseq import bfs, check_snapshots, _replay
 from ..harness import Sut, decode_lines
 from ..oracles import lex
@@ -54,7 +54,11 @@ class BuilderSystem:
         """Real call with context bookkeeping. Returns (exc, chunks)."""
         if op[0] == "enter":
             st.ctxinfo.append((op[1][0], str(getattr(st.g, "distance_mode", None))))
-        exc, chunks = st.call(op)
+        if getattr(self, "debug_log", False):
+            with debug_logging():                   # the application runs the library with DEBUG logging switched on
+                exc, chunks = st.call(op)
+        else:
+            exc, chunks = st.call(op)
         if op[0] in ("exit", "exit!", "exit!k"):
             if st.ctxinfo:
                 st.ctxinfo.pop()
